@@ -131,6 +131,14 @@ CLAIMED["C11"] = {
     "technique": "layout tables + accessor read-sets + getter/ID tables + iterator transition terms",
 }
 
+CLAIMED["C07"] = {
+    "category": "other",
+    "text": "Constructor images of all 35 public tag constructors of both crates: for sized kinds the struct-literal aggregate (header type = the kind's variant/number, size = the oracle's exact unpadded size, every field fed by the like-named parameter, reserved fields zero); for dynamically sized kinds the slice list handed to new_boxed laid against the compiler's layout (piece k covers field k's bytes from offset 8, variable part at the tail offset, to_ne_bytes of the right parameter, literal zeros for reserved); alignment 8 of all 33 tag types; discriminants of six wire enums; FramebufferType::id/serialize per variant; read-back naming between constructor parameters and accessors (with C04/C11 read-sets). One open finding (console flag encodings). Little-endian only.",
+    "design_ref": "DESIGN.md §4 C07",
+    "note": TB + "; imports C16 (new_boxed sets size / concatenates); big-endian targets not decided",
+    "technique": "constructor-image extraction from MIR aggregates and slice lists laid against layout tables, parameter provenance by term identity, enum discriminant tables",
+}
+
 PENDING = "check not yet built in this session (machinery under construction; see DESIGN.md §9 build order) - not claimed until its premises run, pass on the repaired tree and fire on seeded breaks"
 NOT_APPLICABLE = {("C%02d" % i): PENDING for i in range(1, 21)}
 
